@@ -1,5 +1,6 @@
 import Marwood.Lemmas.Stack
 import Marwood.Proofs.C04
+import Marwood.Lemmas.StackWFToy
 /-!
 # C05 — first-class continuations: capture, invocation, re-entry
 
@@ -206,5 +207,133 @@ example :
      | .ok s' => (s'.stack.sp, s'.acc, s'.stack.cells.take 3, s'.ep, s'.ipL, s'.ipO, s'.bp)
      | _ => (0, .undefined, [], 0, 0, 0, 0))
     = (2, .opaque "v", [.undefined, .opaque "a", .opaque "b"], 1, 2, 3, 0) := by decide +kernel
+
+/-! ## T05.3 without its hypothesis (WF-stack, `Lemmas/StackWF*.lean`)
+
+`ret_of_receiver_frame` assumed that when the receiver's frame executes RET its header still holds
+what the re-executed CALL and ENTER wrote. For code the bytecode verifier accepts this is a
+theorem, under the heap laws `CodeLaws`. -/
+
+/-- at RET in a WF state the header of the returning frame is intact: after arbitrary verified code
+    has run in and above the frame `D` (nested calls, tail calls, builtins, re-dispatch; no
+    continuation invoked, the frame itself not returned from), the cells `bp+2 … bp+4` are `D`'s
+    saved `ep`, `ip`, `bp`. -/
+theorem receiver_frame_header_intact {ops : HeapOps H} (cl : CodeLaws ops) {s0 s s1 : St H} {D : FDesc}
+    {R : List FDesc} (hw0 : WFS cl s0 (D :: R)) (htr : Trace ops D.base s0 s)
+    (hr : readOpcode ops s = .ok (.ret, s1)) (hb : FrameBase s D.base) :
+    s.stack.cellAt (s.bp + 2) = D.sep ∧ s.stack.cellAt (s.bp + 3) = D.sip ∧
+      s.stack.cellAt (s.bp + 4) = .basePtr D.sbp :=
+  (frame_header_intact_at_tcall cl hw0 htr hr (.inl rfl) hb).2
+
+/-- **T05.3, closed**: `sc` is the state `call/cc` leaves (T05.1): `ip` back on the CALL, the
+    continuation `k` and `argc 1` on top of the stack, the receiver — a closure — in `acc`; the
+    continuation object holds `stack[0..=sp-2]`, `ep`, `bp` and `ip` = the instruction after the
+    CALL. If the receiver runs any verified code and then returns normally (its frame executes RET),
+    the machine is in the register state invoking `k` produces (T05.2): `sp = sp-2`, the captured
+    `ep`, `ip`, `bp`. No assumption about the frame header. -/
+theorem receiver_return_is_invocation {ops : HeapOps H} (cl : CodeLaws ops) {sc sc1 s0 s s1 s' : St H}
+    {K : List FDesc} {lam env : Nat} (hw : WFS cl sc K)
+    (hrc : readOpcode ops sc = .ok (.callAcc, sc1))
+    (hc : ops.callee sc.heap sc.acc = .closure lam env)
+    (htop : sc.stack.cellAt sc.stack.sp = .argc 1)
+    (hcall : step ops sc = .ok (s0, false))
+    (htr : Trace ops (sc.stack.sp - 1) s0 s)
+    (hr : readOpcode ops s = .ok (.ret, s1)) (hb : FrameBase s (sc.stack.sp - 1))
+    (hs : step ops s = .ok (s', false)) :
+    s'.stack.sp + 2 = sc.stack.sp ∧ s'.ep = sc.ep ∧ s'.ipL = sc.ipL ∧ s'.ipO = sc.ipO + 1 ∧
+      s'.bp = sc.bp ∧ s'.stack.cells = s.stack.cells := by
+  obtain ⟨m, hm, hw0⟩ := call_closure_desc hw hrc hc hcall
+  rw [htop] at hm
+  cases hm
+  obtain ⟨hsp2, _⟩ : 2 ≤ sc.stack.sp ∧ True := by
+    obtain ⟨t, st, ai, _⟩ := hw.instr hrc
+    have chk := ai.chk
+    cases st <;> simp only [Verify.checkOp] at chk <;> try (exact absurd chk Bool.false_ne_true)
+    obtain ⟨m, h1, h2, _⟩ := ai.call_block
+    rw [htop] at h1; cases h1
+    exact ⟨h2, trivial⟩
+  obtain ⟨h2, h3, h4⟩ := receiver_frame_header_intact cl (D := ⟨sc.stack.sp - 1, _, _, _⟩) hw0 htr hr hb
+  simp only at h2 h3 h4
+  have e1 := (readOpcode_ok hr).2
+  unfold step at hs
+  rw [hr] at hs
+  simp only [outcome_bind_ok] at hs
+  obtain ⟨s2, he, hs⟩ := bind_inv hs
+  cases hs
+  subst e1
+  obtain ⟨n, ep, l, o, bp', r1, r2, r3, r4, r5, r6⟩ := stepRet_ok he
+  simp only at r1 r2 r3 r4 r5 r6
+  rw [h2] at r2; rw [h3] at r3; rw [h4] at r4
+  cases r2; cases r3; cases r4
+  obtain ⟨n2, hA2, hn2, hbase⟩ := hb
+  rw [r1] at hA2; cases hA2
+  subst r6
+  refine ⟨?_, rfl, rfl, rfl, rfl, rfl⟩
+  show s.bp - n + 2 = sc.stack.sp
+  omega
+
+/-- the hypotheses of `ret_of_receiver_frame`, as a theorem, when the receiver's frame still has
+    its one argument -/
+theorem ret_of_receiver_frame_verified {ops : HeapOps H} (cl : CodeLaws ops) {sc sc1 s0 s s1 : St H}
+    {K : List FDesc} {lam env : Nat} (hw : WFS cl sc K)
+    (hrc : readOpcode ops sc = .ok (.callAcc, sc1))
+    (hc : ops.callee sc.heap sc.acc = .closure lam env)
+    (htop : sc.stack.cellAt sc.stack.sp = .argc 1) (hsp : 2 ≤ sc.stack.sp)
+    (hcall : step ops sc = .ok (s0, false))
+    (htr : Trace ops (sc.stack.sp - 1) s0 s)
+    (hr : readOpcode ops s = .ok (.ret, s1))
+    (hbp : s.bp = sc.stack.sp - 2 + 1) (hargc : s.stack.cellAt (sc.stack.sp - 2 + 2) = .argc 1) :
+    ∃ s', stepRet s = .ok s' ∧ s'.stack.sp = sc.stack.sp - 2 ∧ s'.ep = sc.ep ∧ s'.ipL = sc.ipL ∧
+      s'.ipO = sc.ipO + 1 ∧ s'.bp = sc.bp ∧ s'.acc = s.acc ∧ s'.stack.cells = s.stack.cells ∧
+      s'.heap = s.heap := by
+  obtain ⟨m, hm, hw0⟩ := call_closure_desc hw hrc hc hcall
+  rw [htop] at hm
+  cases hm
+  have hb : FrameBase s (sc.stack.sp - 1) :=
+    ⟨1, by rw [hbp]; exact hargc, by omega, by omega⟩
+  obtain ⟨P', hw'⟩ := htr.stable (cl := cl) [] ⟨sc.stack.sp - 1, _, _, _⟩ K rfl hw0
+  have hcap := hw'.wf.cap
+  have htop' : sc.stack.sp - 2 + 5 ≤ s.stack.sp := by
+    have := hw'.wf.frames
+    obtain ⟨t, st, ai, _⟩ := hw'.instr hr
+    have chk := ai.chk
+    cases st <;> simp only [Verify.checkOp] at chk <;> try (exact absurd chk Bool.false_ne_true)
+    have hent : t.entry = false := by simpa using chk
+    obtain ⟨_, _, _, _, _, _, hm, _⟩ := this.inv_frame ai.ht hent ai.hst (by simp)
+    have := hm.lo_le
+    omega
+  obtain ⟨h2, h3, h4⟩ := receiver_frame_header_intact cl (D := ⟨sc.stack.sp - 1, _, _, _⟩) hw0 htr hr hb
+  simp only at h2 h3 h4
+  exact ret_of_receiver_frame s (sc.stack.sp - 2) sc.ep sc.ipL (sc.ipO + 1) sc.bp hbp (by omega) hargc
+    (by have e : sc.stack.sp - 2 + 3 = s.bp + 2 := by omega
+        rw [e]; exact h2)
+    (by have e : sc.stack.sp - 2 + 4 = s.bp + 3 := by omega
+        rw [e]; exact h3)
+    (by have e : sc.stack.sp - 2 + 5 = s.bp + 4 := by omega
+        rw [e]; exact h4)
+
+/-! ### non-vacuity: entry code `PUSHIMM v; PUSHIMM argc1; MOVIMM c6 acc; CALL; HALT` — the stack
+`call/cc` leaves for its receiver — with the receiver `c6 = closure of (ENTER; MOVIMM void acc; RET)`
+(`Lemmas/StackWFToy.lean`): every hypothesis of `receiver_return_is_invocation` holds -/
+
+section
+open Marwood.Vm.Toy
+
+example : ∃ K, WFS Toy.laws (nthR 3) K ∧
+    readOpcode Toy.ops (nthR 3) = .ok (.callAcc, { nthR 3 with ipO := 8 }) ∧
+    Toy.ops.callee (nthR 3).heap (nthR 3).acc = .closure 8 0 ∧
+    (nthR 3).stack.cellAt (nthR 3).stack.sp = .argc 1 ∧
+    step Toy.ops (nthR 3) = .ok (nthR 4, false) ∧
+    Trace Toy.ops ((nthR 3).stack.sp - 1) (nthR 4) (nthR 6) ∧
+    readOpcode Toy.ops (nthR 6) = .ok (.ret, { nthR 6 with ipO := 5 }) ∧
+    FrameBase (nthR 6) ((nthR 3).stack.sp - 1) ∧
+    step Toy.ops (nthR 6) = .ok (nthR 7, false) ∧
+    (nthR 7).stack.sp + 2 = (nthR 3).stack.sp := by
+  obtain ⟨K, hw⟩ := runK_wf 3 (prepare Toy.idle 7) (nthR 3) [] Toy.wf_start7 (by rfl)
+  refine ⟨K, hw, by rfl, by rfl, by rfl, by rfl, ?_, by rfl, ⟨1, by rfl, by decide, by rfl⟩, by rfl, by rfl⟩
+  exact .cons (toy_no_cont _) (s1 := nthR 5) (by rfl) (by decide)
+    (.cons (toy_no_cont _) (s1 := nthR 6) (by rfl) (by decide) (.nil _))
+
+end
 
 end Marwood.Proofs.C05
